@@ -584,6 +584,12 @@ acquire_stop(struct AcquireRuntime* self_)
         // already been released, flush it. This takes at most 2 iterations.
         if (video->monitor.reader.id) {
             size_t nbytes;
+            // The client may still hold a mapped region (e.g. abort called
+            // while it inspects frames). Release it first: mapping a mapped
+            // reader is an error that would make every later
+            // acquire_map_read() fail. The client's own unmap is then a no-op.
+            channel_read_unmap(
+              &video->sink.in, &video->monitor.reader, (size_t)-1);
             do {
                 struct slice slice =
                   channel_read_map(&video->sink.in, &video->monitor.reader);
